@@ -101,7 +101,8 @@ def obligations(db, mods, src_root):
                     else:
                         r = env["remote"]
                         desc = ("remote", r.items[r.fields.index("url")].s, r.items[r.fields.index("checksum")].s,
-                                r.items[r.fields.index("filename")].s, env["dataset_folder"].s + "/" + env["dataset_filename"].s,
+                                r.items[r.fields.index("filename")].s,
+                                os.path.normpath(env["dataset_folder"].s + "/" + env["dataset_filename"].s),      # the file actually used
                                 bool(z3.is_true(z3.simplify(env["validate_checksum"].t))))
                     if name in per_name and per_name[name] != desc:
                         recs.append(_Ob(f"C18::variants-agree[{name}]", "spelling-variants-agree", False, f"{per_name[name]} vs {desc}"))
